@@ -22,12 +22,12 @@ type ChainCfg struct {
 	// Memory: "ideal", "banked1", "banked2", "dram-DDR4", "dram-DDR5",
 	// "dram-HBM2", "dram-HBM3", "dram-GDDR6" (presets are close-page; +"-open" selects the open-page policy).
 	Memory  string `json:"memory"`
-	NumMem  int    `json:"num_mem"`  // 1, or 2 = two controllers interleaved at the line size
-	PortBuf int    `json:"port_buf"` // buffer size of every port
-	Lat     int    `json:"lat"`      // latency knob for caches and the ideal memory
-	MSHR    int    `json:"mshr"`     // MSHR entries of every cache
-	Eager   bool   `json:"eager"`    // driver issue policy
-	Full    bool   `json:"full"`     // build inside a real simulation.Simulation
+	NumMem  int    `json:"num_mem"`         // 1, or 2 = two controllers interleaved at the line size
+	PortBuf int    `json:"port_buf"`        // buffer size of every port
+	Lat     int    `json:"lat"`             // latency knob for caches and the ideal memory
+	MSHR    int    `json:"mshr"`            // MSHR entries of every cache
+	Eager   bool   `json:"eager"`           // driver issue policy
+	Full    bool   `json:"full"`            // build inside a real simulation.Simulation
 	DRAMQ   int    `json:"dramq,omitempty"` // 0 = preset queue sizes, 1 = tiny queues (2 transactions, 2 commands)
 	Ways    int    `json:"ways,omitempty"`  // cache associativity (0 = CacheWays)
 }
